@@ -153,6 +153,23 @@ static void wait_readable (int fd, int want_bytes)
   vh_out ("harness-sync-timeout");
 }
 
+/* users of the table whose descriptor is ready for the next poll round: unread data, or the client has closed */
+static int ready_count (void)
+{
+  int n = 0;
+  for (int k = 1; k <= naccepted; k++)
+    if (slot_of (cip[k]) >= 0 && (unread[k] > 0 || cfd[k] < 0))
+      n++;
+  return n;
+}
+
+/* harness discipline: the poller hands out at most READY_MAX + 2 events per round; never let more descriptors get
+ * ready than one process_io() will see (the model has the same guard) */
+#ifndef C12_MAX_EVENTS
+#error "C12_MAX_EVENTS (MAX_EVENTS of lib/async/async_runtime_epoll.c) must be passed by props/c12.py"
+#endif
+#define READY_MAX (C12_MAX_EVENTS - 2)
+
 static int parse_uid (const char *s)
 {
   if (s[0] != 'u')
@@ -199,6 +216,19 @@ static void act (char *line)
       int len = 0;
       if (!k || k > naccepted || cfd[k] < 0 || slot_of (cip[k]) < 0)
         return;			/* not (or no longer) a connected user: nothing is sent */
+      {
+        /* harness discipline: never more than MAX_TEXT / 16 unread bytes per user when backend() polls - that is the
+         * least get_user_data() ever asks recv() for, so one read takes everything (the model has the same guard) */
+        int raw = 0;
+        for (char *p = tok[2]; *p; p++)
+          raw += (*p == '~') ? 2 : 1;
+        if (unread[k] + raw > MAX_TEXT / 16)
+          return;
+        if (unread[k] == 0 && ready_count () >= READY_MAX)
+          return;
+        if (strchr (tok[2], '!'))
+          return;			/* `!` shell escapes are outside the model: such data is never sent */
+      }
       for (char *p = tok[2]; *p && len < (int) sizeof data - 2; p++)
         if (*p == '~')
           {
@@ -223,6 +253,8 @@ static void act (char *line)
       if (!k || k > naccepted || cfd[k] < 0)
         return;
       int present = slot_of (cip[k]) >= 0;
+      if (unread[k] == 0 && ready_count () >= READY_MAX)
+        return;
       int sfd = present ? cip[k]->fd : -1;
       close (cfd[k]);
       cfd[k] = -1;
